@@ -117,7 +117,7 @@ def do_replay(prop, path, quiet=False):
         mode = get_mode(prop)
         v, idx = execute(mode, payload["config"], payload["events"])
     elif eng == "P":
-        from .procsim import replay as preplay
+        from .pprops import replay as preplay
 
         v = preplay(prop, payload)
     elif eng == "D":
@@ -237,7 +237,7 @@ def main(argv=None):
         if prop in W_PROPS:
             return run_w(prop, tier, seed, args)
         if prop in P_PROPS:
-            from .procsim import run_check as prun
+            from .pprops import run_check as prun
 
             return prun(prop, tier, seed, args)
         if prop in D_PROPS:
